@@ -278,13 +278,25 @@ fn one(text: &str, kind: &str, k: usize, dir: &std::path::Path) -> String {
         if lr_by_cfg != s.is_lr { diffs.push("parser-kind".into()); }
         let algo = ev["algorithm"].as_str().unwrap_or("").to_lowercase();
         if (algo.contains("lalr")) != s.is_lr { diffs.push("export-algorithm".into()); }
-        let g2 = G::from_cfg(&gc.cfg, false);
+        let _ = G::from_cfg(&gc.cfg, false);
+        // the grammar in the numbering of the PRODUCTION TABLE: for LL(k) read from the generated source itself, for
+        // LALR(1) (whose source table only has lengths) from the export model, which was compared with it above
+        let g2_sx = if s.is_lr {
+            let prods: Vec<String> = arr(&ev["productions"]).iter().map(|p| format!("({} {})", p["lhs_index"],
+                arr(&p["rhs"]).iter().map(|y| if let Some(n) = y.get("NonTerminal") { format!("-{}", n.as_u64().unwrap_or(0) + 1) } else { y["Terminal"]["index"].to_string() }).collect::<Vec<_>>().join(" "))).collect();
+            format!("({} {})", s.start.unwrap_or(0), prods.join(" "))
+        } else {
+            let sp = s.consts.get("PRODUCTIONS").cloned().unwrap_or(Value::Null);
+            let prods: Vec<String> = arr(&sp).iter().map(|p| format!("({} {})", p["lhs"],
+                arr(&p["production"]).iter().rev().map(|y| { let n = y["args"][0].as_i64().unwrap_or(0); if y["_"] == "T" { n.to_string() } else { format!("-{}", n + 1) } }).collect::<Vec<_>>().join(" "))).collect();
+            format!("({} {})", s.start.unwrap_or(0), prods.join(" "))
+        };
         let dsx = format!("({})", diffs.iter().map(|x| sx::s(x)).collect::<Vec<_>>().join(" "));
         if s.is_lr {
-            Ok(format!("(lr {} {} {})", dsx, g2.sx(), lr_table_sx(&s)))
+            Ok(format!("(lr {} {} {})", dsx, g2_sx, lr_table_sx(&s)))
         } else {
             let (tb, autos) = ll_tables_sx(&s);
-            Ok(format!("(ll {} {} {} {})", dsx, g2.sx(), tb, autos))
+            Ok(format!("(ll {} {} {} {})", dsx, g2_sx, tb, autos))
         }
     });
     match r {
@@ -315,7 +327,8 @@ pub fn run(a: &Args) {
     }
     for i in 0..a.n {
         let k = [1usize, 2, 3][rng.below(3)];
-        match i % 6 {
+        match i % 7 {
+            6 => { let t = crate::c18::random_par(&mut rng); println!("{}", one(&t, "mixed-quoting", k, &dir)); }
             0 => { let g = c09::random_ebnf(&mut rng, false); println!("{}", one(&g.par(false), "ebnf-ll", k.min(2), &dir)); }
             1 => { let g = c09::random_ebnf(&mut rng, false); println!("{}", one(&g.par(true), "ebnf-lr", 1, &dir)); }
             2 => { let g = c20::ll_ebnf(&mut rng); println!("{}", one(&g.par(false), "ebnf-ll1", k, &dir)); }
